@@ -73,6 +73,11 @@ def run(chk):
     chk.explanation = ("tx.ternary evaluated by the checker's evaluator over the reference Circuit model; the dual-rail model netlist is simulated for all (value, X-flag) input assignments "
                        "and compared node by node with Kleene evaluation of the original model circuit.")
     chk.assume("reference Circuit model semantics for add(..., uid/allow_redefinition/add_connected_nodes), uid, copy")
+    from ..core import type_vocabulary
+    from ..structural import dispatch_rule, vocabulary_rule
+
+    vocabulary_rule(chk, repo, "C10.S.vocabulary", [(FILE, "ternary")])
+    dispatch_rule(chk, repo, "C10.S.dispatch", FILE, "ternary", set(type_vocabulary(repo)["supported_types"]) - {"x", "bb_input", "bb_output"})
     P = Package(repo)
     fi = repo.func(FILE, "ternary")
     fams = list(one_gate_circuits(max_arity=3)) + list(deep_circuits()) + list(two_level_circuits(limit=80 if chk.tier == "quick" else None))
